@@ -139,11 +139,9 @@ func newV2(prefix string, ct *Controllers) (cg Cgroup, err error) {
 		path:    filepath.Join(basePath, prefix),
 		control: ct,
 	}
-	if _, err := os.Stat(v2.path); err == nil {
-		v2.existing = true
-	}
+	created := false
 	defer func() {
-		if err != nil && !v2.existing {
+		if err != nil && created {
 			remove(v2.path)
 		}
 	}()
@@ -155,16 +153,19 @@ func newV2(prefix string, ct *Controllers) (cg Cgroup, err error) {
 	// start from base dir
 	entries := strings.Split(prefix, "/")
 	current := ""
-	for _, e := range entries {
+	for i, e := range entries {
 		parent := current
 		current = current + "/" + e
-		// try mkdir if not exists
-		if _, err := os.Stat(filepath.Join(basePath, current)); os.IsNotExist(err) {
-			if err := os.Mkdir(filepath.Join(basePath, current), dirPerm); err != nil {
+		// mkdir is the atomic create-or-existing test: a concurrent creator may win
+		if err := os.Mkdir(filepath.Join(basePath, current), dirPerm); err != nil {
+			if !os.IsExist(err) {
 				return nil, err
 			}
-		} else if err != nil {
-			return nil, err
+			if i == len(entries)-1 {
+				v2.existing = true
+			}
+		} else if i == len(entries)-1 {
+			created = true
 		}
 
 		// no err means create success, need to enable it in its parent folder
